@@ -14,7 +14,7 @@ PP_INV = [
     '(g_fp_n == 0) ==> (startpos == 0 && %s == g_fp_state0)' % ST,
     '(g_fp_n > 0) ==> (g_fp_last_c != -1 && g_fp_last_end < len && startpos == g_fp_last_end + 1 && %s == C15_NEXT(%s, g_fp_last_c))' % (ST, SEP),
     # the piece under construction contains no delimiter of the current state
-    '(startpos <= gj && gj < pos) ==> !C15_DELIM(%s, %s, data[gj])' % (ST, SEP),
+    '(startpos <= gj && gj < pos) ==> !C15_DELIM(%s, %s, g_fp_bj)' % (ST, SEP),
     # every logged call obeys the tiling law and was terminated by a delimiter
     '(gk < g_fp_n) ==> (FP_WIT_OK(data, len, g_fp_state0, %s) && g_fp_wit_c != -1)' % SEP,
 ]
@@ -32,3 +32,95 @@ UNITS.append(U(
     assumes=['chunk length <= VCAP (symbolic), chunk is a fresh read-only object or NULL',
              'htp_urlenp_add_field_piece replaced by a logging stub whose frame is {urlenp->_name, call log}; the real frame is proved by unit htp_urlenp_add_field_piece',
              'the call log speaks about one chunk; composition over chunks is by the entry-state parameter (any _state) and is checked end-to-end only by the bounded units']))
+
+# --------------------------------------------------------------------------------------------------
+# (2) piece handler: htp_urlenp_add_field_piece (static), loop-free once its callees are stubs
+# --------------------------------------------------------------------------------------------------
+FP_REPLACE = ['bstr_builder_size/contract_c15_bb_size', 'bstr_builder_append_mem/contract_c15_bb_append_mem',
+              'bstr_builder_to_str/contract_c15_bb_to_str', 'bstr_builder_clear/contract_c15_bb_clear',
+              'bstr_dup_mem/contract_c15_dup_mem', 'bstr_dup_c/contract_c15_dup_c', 'bstr_free/contract_c15_bstr_free',
+              'htp_tx_urldecode_params_inplace/contract_c15_decode', 'htp_table_addn/contract_c15_table_addn']
+FP_ASSUMES = [
+    'builder, allocation, table and decoder callees replaced by counting stubs; every allocating stub may return NULL / HTP_ERROR; string CONTENTS are not modelled (identity and ownership only): contents are the bounded units',
+    'entry: _state in {KEY, VALUE}; parser invariant (_name != NULL only in VALUE state); piece = range [startpos,endpos) of a fresh chunk with endpos <= VCAP, or data == NULL with (0,0)',
+    'after finalize (_complete == 1) the only call is (NULL, 0, 0, -1), which is what htp_urlenp_finalize does',
+    'decoder htp_tx_urldecode_params_inplace replaced by a no-op stub that only logs its argument (decoder = property C12)']
+FP_H = 'void HARNESS(void) { htp_urlenp_t *u; const unsigned char *d; size_t s, e; int c; htp_urlenp_add_field_piece(u, d, s, e, c); CANARY(); }'
+UNITS.append(U(
+    name='htp_urlenp_add_field_piece', props=['C15', 'C01', 'C18'], kind='contract', src=['htp_urlencoded.c'],
+    enforce='htp_urlenp_add_field_piece', replace=FP_REPLACE, contracts_inc=['c15_urlen.h'], harness=FP_H, objbits=12,
+    defs={'quick': {'VCAP': 1024}, 'thorough': {'VCAP': 65536}}, min_obl=60,
+    sub='piece handler transition table over (state, last_char, complete, piece empty, builder empty, key remembered): a pair is reported exactly for a finished value, '
+        'a key finished by the separator (even empty) and a final non-empty key; final empty piece dropped; unfinished pieces only buffered; pair = (key, value-or-""), '
+        'decoded after the split; frame = {_name}; every string owned exactly once on every allocation-failure path (table insert assumed to adopt)',
+    assumes=FP_ASSUMES + ['ownership clause counts a call of htp_table_addn as adoption even if it returns HTP_ERROR; the strict variant is unit htp_urlenp_add_field_piece_oom']))
+UNITS.append(U(
+    name='htp_urlenp_add_field_piece_oom', props=['C18', 'C15'], kind='contract', src=['htp_urlencoded.c'],
+    enforce='htp_urlenp_add_field_piece', replace=FP_REPLACE, contracts_inc=['c15_urlen.h'], harness=FP_H, objbits=12,
+    defs={'quick': {'VCAP': 1024, 'C15_STRICT_OOM': 1}, 'thorough': {'VCAP': 65536}}, min_obl=60,
+    sub='same contract, strict about allocation failure: a refused table insert adopts nothing (strings must be freed), and the parser invariant '
+        '(_name == NULL whenever the scanner moves to KEY) survives a failed field assembly',
+    assumes=FP_ASSUMES))
+
+# --------------------------------------------------------------------------------------------------
+# (3) bounded reference equality: the REAL parser (create / parse_partial / finalize / table / builder)
+#     against spec/urlen_ref.h, for every body of <= N bytes (all 256 byte values), fed
+#       whole | with one symbolic cut | byte by byte
+# --------------------------------------------------------------------------------------------------
+REF_COMMON = r"""
+/* decode_url_encoding == 0 in these units: the decoder must not be reached */
+#ifndef C15_WITH_DECODER
+htp_status_t htp_tx_urldecode_params_inplace(htp_tx_t *tx, bstr *input) { VASSERT(0, "decoder not called when decode_url_encoding == 0"); return HTP_OK; }
+#endif
+typedef struct { unsigned char a[N]; size_t la; size_t cut; } vin_t;
+static void c15_compare(htp_urlenp_t *u, const unsigned char *a, size_t la) {
+  ref_pair_t rp[N + 1];
+  size_t rn = ref_urlen_split(a, la, '&', rp, N + 1);
+  size_t n = htp_table_size(u->params);
+  VASSERT(n == rn, "number of reported pairs equals the reference");
+  for (size_t i = 0; i < n && i < rn; i++) {
+    bstr *k = NULL; bstr *v = htp_table_get_index(u->params, i, &k);
+    VASSERT(k != NULL && v != NULL, "pair has a name and a value string");
+    if (k == NULL || v == NULL) continue;
+    VASSERT(bstr_len(k) == rp[i].nl, "name length equals the reference (in order)");
+    VASSERT(bstr_len(v) == rp[i].vl, "value length equals the reference (in order)");
+    for (size_t j = 0; j < rp[i].nl && j < bstr_len(k); j++) VASSERT(bstr_ptr(k)[j] == a[rp[i].ns + j], "name bytes equal the reference");
+    for (size_t j = 0; j < rp[i].vl && j < bstr_len(v); j++) VASSERT(bstr_ptr(v)[j] == a[rp[i].vs + j], "value bytes equal the reference");
+  }
+}
+"""
+REF_FEED = {
+    'whole': 'VASSERT(htp_urlenp_parse_partial(u, in.a, in.la) == HTP_OK, "parse_partial OK");',
+    'cut': 'VASSUME(in.cut <= in.la);\n  VASSERT(htp_urlenp_parse_partial(u, in.a, in.cut) == HTP_OK, "first chunk OK");\n'
+           '  VASSERT(htp_urlenp_parse_partial(u, in.a + in.cut, in.la - in.cut) == HTP_OK, "second chunk OK");',
+    'bytewise': 'for (size_t i = 0; i < in.la; i++) VASSERT(htp_urlenp_parse_partial(u, in.a + i, 1) == HTP_OK, "1-byte chunk OK");',
+}
+REF_H = REF_COMMON + r"""
+void HARNESS(void) { VIN(vin_t);
+  VASSUME(in.la <= N);
+  htp_urlenp_t *u = htp_urlenp_create(NULL);
+  VASSUME(u != NULL);
+  u->decode_url_encoding = 0;
+  %s
+  VASSERT(htp_urlenp_finalize(u) == HTP_OK, "finalize OK");
+  VASSERT(u->_name == NULL && bstr_builder_size(u->_bb) == 0, "nothing left pending after finalize");
+  c15_compare(u, in.a, in.la);
+  htp_urlenp_destroy(u);
+  CANARY(); }"""
+REF_LINK = ['bstr.c', 'bstr_builder.c', 'htp_table.c', 'htp_list.c']
+REF_ASSUMES = ['bounded: every body of length <= N over all 256 byte values; separator "&" (the default), decode_url_encoding = 0 (decoder = property C12)',
+               'no allocation failure in these units (under allocation failure pieces are dropped by design; see the _oom units)',
+               'parser built by the real htp_urlenp_create(NULL): tx is only used by the decoder']
+for _mode, _nq, _nt in (('whole', 6, 9), ('cut', 6, 8), ('bytewise', 5, 7)):
+    UNITS.append(U(
+        name='ref_urlen_' + _mode, props=['C15'], kind='bounded', src=['htp_urlencoded.c'], link=REF_LINK, replay='vin',
+        contracts_inc=['urlen_ref.h'], harness=REF_H % REF_FEED[_mode],
+        defs={'quick': {'N': _nq}, 'thorough': {'N': _nt}},
+        flags_add=['--unwind', str(max(_nq, _nt) + 3), '--unwinding-assertions', '--memory-leak-check'],
+        flags_del=['--unsigned-overflow-check', '--malloc-may-fail', '--malloc-fail-null'], objbits=12,
+        timeout=(600, 3000),
+        bound='all bodies of length <= N (quick N=%d, thorough N=%d), all byte values, fed %s' % (_nq, _nt,
+              {'whole': 'in one call', 'cut': 'in two calls with every cut position 0..len', 'bytewise': 'one byte per call'}[_mode]),
+        sub='real streaming parser + real builder/table == reference split rule (pair count, order, name/value lengths and bytes, empty names and values, final empty piece dropped); '
+            'feeding mode: %s; teardown clean (no leak, no double free)' % _mode,
+        assumes=REF_ASSUMES))
